@@ -94,17 +94,23 @@ def install_cholesky(env, A_):
     return state
 
 
-@obligation('C10.Cholesky', functions=[f'{SOL}:Cholesky.forward'], max_paths=16, no_validate=True)
-def chol(env):
+CHOL = {}
+
+
+def chol_upper(env):
+    return chol(env, upper=True)
+
+
+def chol(env, upper=False):
     sol = env.load(SOL); T = env.T
     if not env.sym:
-        return chol_numeric(env)
+        return chol_numeric(env, upper=upper)
     a, c = env.scalar('a', positive=True)[0], env.scalar('c', positive=True)[0]
     b_ = env.scalar('b')[0]
     A_ = T.stack([T.stack([a, b_]), T.stack([b_, c])])
     rhs = Msym(env, 'r', 2, 1)
     state = install_cholesky(env, A_)
-    s = sol.Cholesky()
+    s = sol.Cholesky(upper=upper)
     try:
         x = s(A_, rhs)
     except AssertionError:
@@ -114,6 +120,11 @@ def chol(env):
     if state['ok']:
         env.assume('positive definite: a > 0, a c - b^2 > 0', (a > 0) & (a * c - b_ * b_ > 0))
     env.eq('A x = b on every non-raising path (a failed factorisation must not return a vector)', A_ @ x, rhs)
+
+
+obligation('C10.Cholesky', functions=[f'{SOL}:Cholesky.forward'], max_paths=16, no_validate=True)(chol)
+obligation('C10.Cholesky.upper', functions=[f'{SOL}:Cholesky.forward', f'{SOL}:Cholesky.__init__'], max_paths=16, no_validate=True,
+           note='the upper=True option: the factor returned by cholesky_ex(upper=True) is used as an upper factor')(chol_upper)
 
 
 @obligation('C10.Cholesky.batch', functions=[f'{SOL}:Cholesky.forward'], max_paths=32, no_validate=True,
@@ -159,7 +170,7 @@ def chol_batch(env):
         env.eq('A_i x_i = b_i for every item', A_ @ x, rhs)
 
 
-def chol_numeric(env, batch=False):
+def chol_numeric(env, batch=False, upper=False):
     import torch
     sol = env.load(SOL)
     rng = env.rng
@@ -177,7 +188,7 @@ def chol_numeric(env, batch=False):
         A_ = torch.stack(mats, 0); b = torch.randn(B, n, 1, dtype=torch.float64, generator=g)
         env.sample['kinds'] = [k == 'spd' for k in kinds] + [n]
         try:
-            x = sol.Cholesky()(A_, b)
+            x = sol.Cholesky(upper=upper)(A_, b)
         except AssertionError:
             env.holds('raising is only allowed when a factorisation failed', not all(k == 'spd' for k in kinds)); return
         env.holds('no vector is returned unless every factorisation of the batch succeeded', all(k == 'spd' for k in kinds))
@@ -193,7 +204,7 @@ def chol_numeric(env, batch=False):
     b = torch.randn(n, 1, dtype=torch.float64, generator=torch.Generator().manual_seed(rng.randrange(1 << 30)))
     env.sample['kind'] = [kind == 'spd', n]
     try:
-        x = sol.Cholesky()(A_, b)
+        x = sol.Cholesky(upper=upper)(A_, b)
     except AssertionError:
         env.holds('raising is only allowed when the factorisation failed', kind != 'spd'); return
     env.eq('A x = b on every non-raising path (a failed factorisation must not return a vector)', A_ @ x, b, tol=1e-6)
@@ -202,8 +213,8 @@ def chol_numeric(env, batch=False):
 class CGLoop(loopcut.LoopContract):
     """invariant at the head of `for iteration in range(maxiter)`:  r = b - A x"""
     modifies = ('alpha', 'beta', 'iteration', 'p', 'rho_cur', 'rho_prev', 'x', 'r', 'z')
-    def __init__(self, env, A_, b, with_M):
-        self.env, self.A, self.b, self.with_M = env, A_, b, with_M
+    def __init__(self, env, A_, b, with_M, M=None):
+        self.env, self.A, self.b, self.with_M, self.M = env, A_, b, with_M, M
     def enter(self, frame):
         env = self.env
         env.eq('entry: r = b - A x', frame['r'], self.b - self.A @ frame['x'])
@@ -217,14 +228,26 @@ class CGLoop(loopcut.LoopContract):
         if name == 'x': return self.x
         if name == 'r': return self.r
         if name == 'iteration': return 0 if self.first else 1
-        if name == 'p': return None if self.first else Msym(env, 'ph', 2, 1)
-        if name == 'rho_prev': return None if self.first else Msym(env, 'rho_h', 1, 1)
+        if name == 'p':
+            self.p_old = None if self.first else Msym(env, 'ph', 2, 1)
+            return None if self.first else self.p_old.clone()
+        if name == 'rho_prev':
+            self.rho_prev = None if self.first else Msym(env, 'rho_h', 1, 1)
+            return self.rho_prev
         if name == 'z': return st.zeros(2, 1) if self.with_M else self.r
         return old
     def cond(self, frame):
         return True
     def back(self, frame):
-        self.env.eq('back edge: r = b - A x', frame['r'], self.b - self.A @ frame['x'])
+        env = self.env; T = env.T
+        env.eq('back edge: r = b - A x', frame['r'], self.b - self.A @ frame['x'])
+        # ownership: p is updated in place over the iterations, so it must not share storage with the buffers that are overwritten
+        def shares(u, v):
+            if env.sym:
+                import numpy as np
+                return bool(np.shares_memory(u._a, v._a))
+            return u.data_ptr() == v.data_ptr()
+        env.holds('back edge: the search direction owns its storage (not aliased with z, r, x)', not any(shares(frame['p'], frame[k]) for k in ('z', 'r', 'x')))
 
 
 for with_M in (False, True):
@@ -240,7 +263,7 @@ for with_M in (False, True):
             rhs = Msym(env, 'r', 2, 1)
             x0 = Msym(env, 'x0', 2, 1)
             Mp = Msym(env, 'M', 2, 2) if with_M else None
-            lc = CGLoop(env, A_, rhs, with_M)
+            lc = CGLoop(env, A_, rhs, with_M, Mp)
             loopcut.DISPATCH.contracts['CG.for'] = lc
             tol = Q(1, 100000)
             s = sol.CG(tol=tol)
@@ -294,15 +317,25 @@ def cg_conv(rng, tier):
         layout = rng.choice(['dense', 'csr', 'coo'])
         Al = A_ if layout == 'dense' else (A_.to_sparse_csr() if layout == 'csr' else A_.to_sparse_coo())
         x0 = None if rng.random() < 0.5 else torch.randn(n, 1, dtype=torch.float64, generator=g)
+        # optional preconditioner: none / Jacobi (diagonal) / a perturbed inverse (SPD, dense)
+        pk = rng.choice(['none', 'none', 'jacobi', 'approx_inverse'])
+        if pk == 'jacobi': Mp = torch.diag(1.0 / A_.diagonal())
+        elif pk == 'approx_inverse':
+            E = torch.randn(n, n, dtype=torch.float64, generator=g) * 0.05 / max(1, n) ** 0.5
+            Ai = torch.linalg.inv(A_); Mp = Ai + (Ai @ (E + E.T) @ Ai) * float(ev.min())
+            Mp = (Mp + Mp.T) / 2
+            if float(torch.linalg.eigvalsh(Mp).min()) <= 0: Mp = None
+        else: Mp = None
+        layout = layout + ('' if Mp is None else f'+M:{pk}')
         try:
-            x = CG()(Al, b, None if x0 is None else x0.clone())
+            x = CG()(Al, b, None if x0 is None else x0.clone(), Mp)
             err = float(torch.linalg.norm(b - A_ @ x)) / float(torch.linalg.norm(b))
             if not err <= 1e-5 * 1.001:
                 fails.append(dict(clause='tolerance', signature=f'n={n},kappa={kappa:.1f},{layout}', err=err))
         except Exception as e:
             fails.append(dict(clause='raises', signature=f'n={n},{layout}', error=f'{type(e).__name__}: {e}'[:200]))
         if k < 3: samples.append(dict(n=n, kappa=kappa, layout=layout))
-    return dict(evaluations=N, distinct_nontrivial=N, rule='random SPD systems, n in 1..40, kappa in [1,1e3], dense/CSR/COO, with/without initial guess; all distinct by seed',
+    return dict(evaluations=N, distinct_nontrivial=N, rule='random SPD systems, n in 1..40, kappa in [1,1e3], dense/CSR/COO, with/without initial guess, without / with a Jacobi or approximate-inverse preconditioner; all distinct by seed',
                 bound='n <= 40, kappa <= 1e3', failures=fails[:5], samples=samples)
 
 
